@@ -328,6 +328,10 @@ func batch[W any](t *testing.T, h Harness[W]) {
 		}
 	}
 	progress.Store(-1)
+	if fc := simrt.FnCoverage(); fc != nil && out != "/dev/null" {
+		fj, _ := json.Marshal(fc)
+		os.WriteFile(out+".fncov", fj, 0o644)
+	}
 	sum.Distinct = len(hashes)
 	sum.WallS = time.Since(t0).Seconds()
 	if out != "/dev/null" {
